@@ -657,6 +657,13 @@ Proof.
   destruct ok; intros H; inversion H; subst; destruct (vargs_inv _ _ _ _ _ _ E) as [Hok R]; try discriminate.
   auto.
 Qed.
+Lemma check_func_none cols fn m l args st t args' :
+  check_func (vargs c cols) fn m l args st = (t, args', None) -> st = None.
+Proof.
+  destruct st as [y|]; [|reflexivity]. intros H.
+  pose proof (check_func_sticky c cols fn m l args (proj2 (Forall_forall _ _) (fun z _ => visit_sticky c z)) y) as S.
+  rewrite H in S. discriminate.
+Qed.
 End Vis.
 
 (* ---- one-step unfolding of the reference semantics ---- *)
@@ -1539,4 +1546,369 @@ Proof.
     eapply Forall_impl; [|exact Hxs]. intros r Hr. apply has_ty_iface. eapply has_ty_wf; exact Hr.
   - apply s_bool_inv in Hsc. subst tb. cbn in Eru. inversion Eru; subst t. apply count_loop_ok; [exact Hbody|].
     intros cnt s2. cbn. apply ty_vint.
+Qed.
+
+(* ---- calls: integer-literal arithmetic in argument position (retyped by the checker) ---- *)
+Definition lit_kind (pin : ty) : kind := match pin with TNum k => k | _ => KInt end.
+
+Lemma int_const_lit l pin z : (s_num pin || s_iface pin) = true ->
+  has_ty (int_const (mkAnn l (kind_of_ty pin)) z) (TNum (lit_kind pin)).
+Proof.
+  destruct pin; try discriminate; intros _; cbn [kind_of_ty lit_kind]; unfold int_const; cbn [akind].
+  - destruct (is_float k) eqn:E.
+    + apply (ty_num _ _ (NFlt k _)). exact E.
+    + apply (ty_num _ _ (NInt k _)). cbn. rewrite E. reflexivity.
+  - apply ty_vint.
+Qed.
+
+Lemma comb_same k : comb (TNum k) (TNum k) = inl (TNum k).
+Proof.
+  unfold comb. rewrite combined_ty_num. unfold combined. cbn.
+  match goal with |- context [if ?b then _ else _] => destruct b end; reflexivity.
+Qed.
+
+Lemma neg_ok v k l0 s0 : has_ty v (TNum k) -> res_ok (TNum k) (lift l0 s0 (p_negate v) (fun r => Done r s0)).
+Proof.
+  intros Hv. destruct (inv_num _ _ _ _ Hv) as (n & -> & Kn & Sn). cbn.
+  replace k with (num_kind (go_neg n)) by (destruct n; exact Kn). apply ty_num. destruct n; exact Sn.
+Qed.
+
+Definition lit_sound_at (a : expr) : Prop := lit_arith a = true ->
+  forall cols ta tree st0 st, visit c cols a st0 = (ta, tree, st) ->
+  forall pin, (s_num pin || s_iface pin) = true ->
+  forall ctx s, res_ok (TNum (lit_kind pin)) (ev ctx (set_ints tree pin) s).
+
+Lemma lit_sound : forall a, lit_sound_at a.
+Proof.
+  induction a using expr_ind2. rename H into HF.
+  destruct a as [an|an nm nsf|an z|an f|an b|an sx|an v|an op x|an op l r|an re l r|an x nm nsf|an x i|an x fr to
+                |an x nm args nsf|an nm args fast|an b args|an x|an|an cnd x y|an es|an ps|an k v];
+    intros Hl; try discriminate Hl; intros cols ta tree st0 st H pin Hp ctx s; cbn [children] in HF.
+  - cbn in H. inversion H; subst. cbn. apply int_const_lit. exact Hp.
+  - inversion HF as [|? ? IHx _]; subst. cbn [lit_arith] in Hl. cbn [visit] in H.
+    destruct (visit c cols x st0) as [[tx x1] st1] eqn:Ex.
+    match type of H with context [emit ?l ?r ?st] => destruct (emit l r st) as [t3 st3] end.
+    inversion H; subst. pose proof (fun Hx => IHx Hx _ _ _ _ _ Ex pin Hp ctx) as R.
+    destruct op; try discriminate; cbn [settle set_ann set_ints]; rewrite sv_unary;
+      (eapply res_bind; [apply R; exact Hl|]); intros v s1 Hv; [exact Hv|apply neg_ok; exact Hv].
+  - inversion HF as [|? ? IHl HF2]; subst. inversion HF2 as [|? ? IHr _]; subst.
+    cbn [lit_arith] in Hl. cbn [visit] in H.
+    destruct (visit c cols l st0) as [[tl l1] st1] eqn:El. destruct (visit c cols r st1) as [[tr r1] st2] eqn:Er.
+    match type of H with context [emit ?l ?r ?st] => destruct (emit l r st) as [t3 st3] end.
+    inversion H; subst.
+    pose proof (fun Hx => IHl Hx _ _ _ _ _ El pin Hp ctx) as Rl. pose proof (fun Hx => IHr Hx _ _ _ _ _ Er pin Hp ctx) as Rr.
+    destruct op; try discriminate; apply andb_prop in Hl; destruct Hl as [Hl1 Hl2];
+      cbn [settle set_ann set_ints]; rewrite sv_binary; cbn [is_or is_and];
+      (eapply res_bind; [apply Rl; exact Hl1|]); intros va s1 Ha; (eapply res_bind; [apply Rr; exact Hl2|]); intros vb s2 Hb;
+      cbn [bin_strict]; (eapply arith_ok; eauto using comb_same; reflexivity).
+Qed.
+
+(* ---- calls: the arguments against the declared inputs ---- *)
+Inductive vals_rel (pt : nat -> ty) : nat -> list value -> Prop :=
+| VR_nil i : vals_rel pt i []
+| VR_cons i v r : has_ty v (pt i) -> pt i <> TNilT -> vals_rel pt (S i) r -> vals_rel pt i (v :: r).
+
+Definition sc_args (cols : list ty) : (nat -> ty) -> nat -> list expr -> bool :=
+  fix sargs (pt : nat -> ty) (i : nat) (args : list expr) {struct args} : bool :=
+    match args with
+    | [] => true
+    | a :: r => scope c cols a && sc_arg a (tyof c cols a) (pt i) && sargs pt (S i) r
+    end.
+
+Lemma has_ty_weaken v t p : has_ty v t -> assignable t p = true -> has_ty v p.
+Proof.
+  intros Hv Ha. destruct (assignable_inv _ _ Ha) as [->| ->]; [exact Hv|]. apply has_ty_iface. eapply has_ty_wf; exact Hv.
+Qed.
+
+Lemma ev_args_ok cols ctx pt t : ctx_ok ctx cols -> forall i args args',
+  Forall sound_at args -> sc_args cols pt i args = true -> args_rel c cols pt i args args' ->
+  forall s k, (forall vs s', vals_rel pt i vs -> List.length vs = List.length args -> res_ok t (k vs s')) ->
+  res_ok t (ev_list fe cfg env ctx args' s k).
+Proof.
+  intros Hc i args args' HF Hs R. revert HF Hs.
+  induction R as [i|i a r ta a1 a2 r' Ea Eru R IH]; intros HF Hs s k Hk.
+  - cbn. apply Hk; [constructor|reflexivity].
+  - inversion HF as [|? ? Ha HFr]; subst. cbn [sc_args] in Hs.
+    apply andb_prop in Hs. destruct Hs as [Hs Hsr]. apply andb_prop in Hs. destruct Hs as [Hsa Hsg].
+    unfold tyof in Hsg. rewrite Ea in Hsg. cbn [fst] in Hsg.
+    assert (Rv : res_ok (pt i) (ev ctx a2 s) /\ pt i <> TNilT).
+    { unfold sc_arg in Hsg. unfold arg_rule in Eru. destruct (is_arith a) eqn:Ar.
+      - apply andb_prop in Hsg. destruct Hsg as [Hl Hp].
+        assert (a2 = set_ints a1 (pt i)) as ->.
+        { destruct (is_nil_ty (pt i)); [inversion Eru; reflexivity|].
+          destruct (negb (assignable (pt i) (pt i)) && negb (rkind_eqb (kind_of_ty (pt i)) RKInterface)); inversion Eru; reflexivity. }
+        pose proof (lit_sound a Hl _ _ _ _ _ Ea (pt i) Hp ctx s) as P. split.
+        + destruct (pt i); try discriminate; cbn [lit_kind] in P; [exact P|].
+          destruct (ev ctx (set_ints a1 TIface) s); cbn in *; [|exact P]. apply has_ty_iface. eapply has_ty_wf; exact P.
+        + destruct (pt i); try discriminate; congruence.
+      - apply andb_prop in Hsg. destruct Hsg as [Hn Hp]. apply negb_true_iff in Hn. rewrite Hn in Eru.
+        rewrite Hp in Eru. cbn in Eru. inversion Eru; subst a2. split.
+        + pose proof (Ha _ _ _ Ea Hsa ctx Hc s) as P. destruct (ev ctx a1 s); cbn in *; [|exact P].
+          eapply has_ty_weaken; eauto.
+        + destruct (assignable_inv _ _ Hp) as [E|E]; [rewrite <- E; intros E2; rewrite E2 in Hn; discriminate|rewrite E; discriminate]. }
+    destruct Rv as [Rv Np]. cbn [ev_list]. eapply res_bind; [exact Rv|]. intros v s1 Hv.
+    apply IH; auto. intros vs s' Hvs Hlen. apply Hk; [constructor; assumption|cbn; congruence].
+Qed.
+
+Lemma nilmatch_ok v p : has_ty v p -> p <> TNilT ->
+  (match v with VNil => assignable TIface p | _ => assignable (dyn_type v) p end) = true.
+Proof.
+  intros [_ [->|D]] N; [destruct v; unfold assignable; apply orb_true_r|].
+  destruct v; try (rewrite D; apply assignable_self). cbn in D. congruence.
+Qed.
+
+Lemma dyn_assignable v p : has_ty v p -> p <> TNilT -> assignable (dyn_type v) p = true.
+Proof. intros [_ [->|D]] N; [unfold assignable; apply orb_true_r|rewrite D; apply assignable_self]. Qed.
+
+Lemma vals_rel_shift pt pt' vs : (forall j, pt (S j) = pt' j) -> forall i, vals_rel pt (S i) vs -> vals_rel pt' i vs.
+Proof.
+  intros E. induction vs as [|v r IH]; intros i H; [constructor|].
+  inversion H; subst. constructor; [rewrite <- E; assumption|rewrite <- E; assumption|apply IH; assumption].
+Qed.
+
+Lemma vals_rel_const pt e vs : (forall j, pt j = e) -> forall i, vals_rel pt i vs ->
+  forallb (fun a => assignable (dyn_type a) e) vs = true.
+Proof.
+  intros E. induction vs as [|v r IH]; intros i H; [reflexivity|]. inversion H; subst. cbn [forallb].
+  rewrite (IH _ ltac:(eassumption)). rewrite E in *. rewrite dyn_assignable; auto.
+Qed.
+
+Definition arity_cond (ins : list ty) (v : bool) (n : nat) : Prop :=
+  if v then (List.length ins - 1 <= n)%nat else n = List.length ins.
+
+Lemma arity_none ins v n : arity_rule ins v false n = None -> arity_cond ins v n.
+Proof.
+  unfold arity_cond, arity_rule. rewrite Nat.sub_0_r. destruct v.
+  - destruct (n <? List.length ins - 1)%nat eqn:E; [discriminate|]. intros _. apply Nat.ltb_ge in E. exact E.
+  - destruct (List.length ins <? n)%nat eqn:E1; [discriminate|]. destruct (n <? List.length ins)%nat eqn:E2; [discriminate|].
+    intros _. apply Nat.ltb_ge in E1, E2. lia.
+Qed.
+
+Lemma arity_none_rev ins v n : arity_cond ins v n -> arity_rule ins v false n = None.
+Proof.
+  unfold arity_cond, arity_rule. rewrite Nat.sub_0_r. destruct v; intros H.
+  - destruct (n <? List.length ins - 1)%nat eqn:E; [apply Nat.ltb_lt in E; lia|reflexivity].
+  - destruct (List.length ins <? n)%nat eqn:E1; [apply Nat.ltb_lt in E1; lia|].
+    destruct (n <? List.length ins)%nat eqn:E2; [apply Nat.ltb_lt in E2; lia|reflexivity].
+Qed.
+
+Lemma pt_shift p q ins v j : param_ty (p :: q :: ins) v false (S j) = param_ty (q :: ins) v false j.
+Proof.
+  unfold param_ty. rewrite !Nat.sub_0_r, !Nat.add_0_r. cbn [List.length nth].
+  replace (S (S (List.length ins)) - 1 <=? S j)%nat with (S (List.length ins) - 1 <=? j)%nat
+    by (cbn; rewrite Nat.sub_0_r; reflexivity).
+  reflexivity.
+Qed.
+
+Lemma pt_head p q ins v : param_ty (p :: q :: ins) v false 0 = p.
+Proof. unfold param_ty. cbn. rewrite andb_false_r. reflexivity. Qed.
+
+Lemma args_ok_cons2 p q ins v a r :
+  args_ok (p :: q :: ins) v (a :: r) =
+  (match a with VNil => assignable TIface p | _ => assignable (dyn_type a) p end) && args_ok (q :: ins) v r.
+Proof. destruct p; reflexivity. Qed.
+
+Lemma args_ok_typed : forall ins v vs,
+  arity_rule ins v false (List.length vs) = None ->
+  (v = true -> exists e, last ins TNilT = TSlice e) ->
+  vals_rel (param_ty ins v false) 0 vs -> args_ok ins v vs = true.
+Proof.
+  induction ins as [|p ins IH]; intros v vs Ha Hv R.
+  - apply arity_none in Ha. unfold arity_cond in Ha. destruct v.
+    + destruct (Hv eq_refl) as [e E]. discriminate.
+    + destruct vs; [reflexivity|discriminate].
+  - destruct ins as [|q ins].
+    + (* the last declared input *)
+      destruct v.
+      * destruct (Hv eq_refl) as [e E]. cbn in E. subst p. cbn [args_ok].
+        eapply (vals_rel_const _ e); [|exact R]. intros j. unfold param_ty. cbn. reflexivity.
+      * apply arity_none in Ha. unfold arity_cond in Ha. cbn in Ha. destruct vs as [|a [|b r]]; try discriminate.
+        inversion R as [|? ? ? Hty Hn _]; subst. unfold param_ty in Hty, Hn. cbn in Hty, Hn.
+        destruct p; cbn [args_ok]; rewrite ?andb_true_r; try (apply nilmatch_ok; assumption).
+        apply dyn_assignable; assumption.
+    + apply arity_none in Ha. unfold arity_cond in Ha.
+      destruct vs as [|a r]; [destruct v; cbn in Ha; lia|].
+      inversion R as [|? ? ? Hty Hn Rr]; subst. rewrite pt_head in Hty, Hn.
+      assert (args_ok (q :: ins) v r = true) as Hr.
+      { apply IH.
+        - apply arity_none_rev. unfold arity_cond. destruct v; cbn [List.length] in *; lia.
+        - intros E. destruct (Hv E) as [e El]. exists e. exact El.
+        - eapply vals_rel_shift; [|exact Rr]. intros j. apply pt_shift. }
+      rewrite args_ok_cons2, Hr, andb_true_r. apply nilmatch_ok; assumption.
+Qed.
+
+(* ---- calls: the callee ---- *)
+Lemma fast_sig_strip recv ins v o : fast_sig (TFunc (recv :: ins) v [o]) true = fast_sig (TFunc ins v [o]) false.
+Proof.
+  unfold fast_sig. destruct v; [|reflexivity]. destruct ins as [|p [|q r]]; reflexivity.
+Qed.
+
+Lemma sig_norm ins v m : sc_sig ins v m = true ->
+  (v = true -> exists e, last (if m then tl ins else ins) TNilT = TSlice e) /\
+  (forall i, param_ty ins v m i = param_ty (if m then tl ins else ins) v false i) /\
+  (forall n, arity_rule ins v m n = arity_rule (if m then tl ins else ins) v false n) /\
+  (forall o, fast_sig (TFunc ins v [o]) m = fast_sig (TFunc (if m then tl ins else ins) v [o]) false) /\
+  (m = true -> forall o, strip_receiver (TFunc ins v [o]) = TFunc (tl ins) v [o]).
+Proof.
+  unfold sc_sig. intros H. apply andb_prop in H. destruct H as [Hm Hv].
+  assert (V : v = true -> exists e, last (if m then tl ins else ins) TNilT = TSlice e).
+  { intros ->. destruct (last (if m then tl ins else ins) TNilT); try discriminate. eauto. }
+  split; [exact V|]. destruct m; [|repeat split; try reflexivity; discriminate].
+  destruct ins as [|recv ins]; [discriminate|]. cbn [tl] in *.
+  split; [|split; [|split]].
+  - intros i. unfold param_ty. cbn [List.length]. rewrite ?Nat.sub_0_r, ?Nat.add_0_r.
+    replace (S (List.length ins) - 1)%nat with (List.length ins) by lia.
+    destruct (v && (List.length ins - 1 <=? i)%nat) eqn:E.
+    + apply andb_prop in E. destruct E as [Ev _]. destruct (V Ev) as [e El].
+      destruct ins as [|p r]; [discriminate|]. reflexivity.
+    + replace (i + 1)%nat with (S i) by lia. reflexivity.
+  - intros n. unfold arity_rule. cbn [List.length]. rewrite ?Nat.sub_0_r.
+    replace (S (List.length ins) - 1)%nat with (List.length ins) by lia. reflexivity.
+  - intros o. apply fast_sig_strip.
+  - intros _ o. reflexivity.
+Qed.
+
+Lemma call_ok id ins v o recv vs l s fastflag : ftab id = Some (TFunc ins v [o]) ->
+  (fastflag = true -> fast_sig (TFunc ins v [o]) false = true) -> args_ok ins v vs = true ->
+  res_ok o (do_call fe l fastflag id recv vs s).
+Proof.
+  intros Hf Hfast Hargs. unfold do_call. rewrite (fo_sig _ _ _ Hfe id ins v o Hf). cbn [s_fast s_ins s_variadic s_nout].
+  destruct fastflag.
+  - rewrite (Hfast eq_refl). destruct (fn_run fe id recv vs) as [r|er] eqn:E; cbn.
+    + exact (fo_res _ _ _ Hfe id ins v o recv vs r Hf E).
+    + exact (fo_err _ _ _ Hfe id recv vs er E).
+  - rewrite Hargs. destruct (fn_run fe id recv vs) as [r|er] eqn:E; cbn.
+    + exact (fo_res _ _ _ Hfe id ins v o recv vs r Hf E).
+    + exact (fo_err _ _ _ Hfe id recv vs er E).
+Qed.
+
+Lemma vals_rel_ext pt pt' vs : (forall j, pt j = pt' j) -> forall i, vals_rel pt i vs -> vals_rel pt' i vs.
+Proof.
+  intros E. induction vs as [|v r IH]; intros i H; [constructor|].
+  inversion H; subst. constructor; [rewrite <- E; assumption|rewrite <- E; assumption|apply IH; assumption].
+Qed.
+
+Lemma ffs_tag_no_method n t name tg : ffs_name te n t name = Some tg -> tg_method tg = false.
+Proof.
+  intros H. destruct (tg_amb tg) eqn:A.
+  - rewrite (ffs_name_amb te n t name tg H A). reflexivity.
+  - destruct n; cbn [ffs_name] in H; [destruct (dereference t); discriminate|].
+    destruct (dereference t) eqn:D; try discriminate.
+    destruct (ffs_name_sound te (S n) t name0 name tg D ltac:(cbn [ffs_name]; rewrite D; exact H) A) as (d & p & f & _ & -> & _).
+    reflexivity.
+Qed.
+
+Lemma env_callee name tg ins v o :
+  lookup_name c name = Some tg -> tg_ty tg = TFunc ins v [o] -> tg_amb tg = false ->
+  sc_sig ins v (tg_method tg) = true ->
+  exists id, Prim.fetch_fn fe env name = Ok id /\ ftab id = Some (TFunc (if tg_method tg then tl ins else ins) v [o]).
+Proof.
+  intros Hl Hty Ha Hsig.
+  destruct (eo_table _ _ _ _ _ _ Henv) as (tb & Htb & Hc).
+  destruct (eo_val _ _ _ _ _ _ Henv) as (p & fields & Eenv & HT). pose proof (eo_wf _ _ _ _ _ _ Henv) as Hw.
+  rewrite Eenv in Hw. unfold lookup_name in Hl. rewrite Htb in Hl.
+  pose proof Hl as Hg. rewrite (struct_table_get te perm Hperm Hwf T sn tb name env_T Hc) in Hg.
+  destruct (method_by_name te T name) as [mt|] eqn:Hm.
+  - inversion Hg; subst tg. cbn [tg_ty tg_method method_tag] in *. subst mt.
+    rewrite HT in Hm. destruct (fo_meth _ _ _ Hfe sn p name _ Hm) as (id & Hfm & Hft).
+    destruct (sig_norm _ _ _ Hsig) as (_ & _ & _ & _ & Hst). rewrite (Hst eq_refl) in Hft.
+    exists id. split; [|exact Hft]. rewrite Eenv. unfold Prim.fetch_fn. cbn [type_name_of]. rewrite Hfm. reflexivity.
+  - pose proof (ffs_tag_no_method _ _ _ _ Hg) as Hnm. rewrite Hnm.
+    destruct (table_field tb name tg Htb Hc Hl Ha Hnm) as [pth R]. rewrite Hty in R.
+    destruct (struct_member _ _ _ _ _ _ _ _ Hw R) as (x & Ex & Hx). destruct (inv_func _ _ _ _ _ _ Hx) as (id & -> & Hft).
+    rewrite HT in Hm. pose proof (fo_nometh _ _ _ Hfe sn p name Hm) as Hfm.
+    exists id. split; [|exact Hft]. rewrite Eenv. unfold Prim.fetch_fn. cbn [type_name_of]. rewrite Hfm, Ex. reflexivity.
+Qed.
+
+Lemma scope_function cols a name args fast :
+  scope c cols (EFunction a name args fast) =
+  negb fast &&
+  match lookup_name c name with
+  | Some tg =>
+      match tg_ty tg with
+      | TFunc ins v [o] =>
+          negb (tg_amb tg) && sc_sig ins v (tg_method tg) && sc_args cols (param_ty ins v (tg_method tg)) 0%nat args
+      | _ => false
+      end
+  | None => false
+  end.
+Proof. reflexivity. Qed.
+
+Lemma scope_method cols a x name args ns :
+  scope c cols (EMethod a x name args ns) =
+  scope c cols x &&
+  match tyof c cols x with
+  | TStruct sn' =>
+      match method_by_name te (TStruct sn') name with
+      | Some (TFunc ins v [o]) => sc_sig ins v true && sc_args cols (param_ty ins v true) 0%nat args
+      | _ => false
+      end
+  | _ => false
+  end.
+Proof. reflexivity. Qed.
+
+Lemma finish_call cols ctx (pt : nat -> ty) ins v m o args args' id recv l fastflag :
+  ctx_ok ctx cols -> Forall sound_at args -> sc_sig ins v m = true ->
+  sc_args cols (param_ty ins v m) 0 args = true -> arity_rule ins v m (List.length args) = None ->
+  args_rel c cols (param_ty ins v m) 0 args args' ->
+  ftab id = Some (TFunc (if m then tl ins else ins) v [o]) ->
+  (fastflag = true -> fast_sig (TFunc ins v [o]) m = true) ->
+  forall s, res_ok o (ev_list fe cfg env ctx args' s (fun vs s1 => do_call fe l fastflag id recv vs s1)).
+Proof.
+  intros Hc HF Hsig Hsa Har R Hft Hfast s.
+  destruct (sig_norm _ _ _ Hsig) as (Hlast & Hpt & Hari & Hfs & _).
+  eapply ev_args_ok; eauto. intros vs s' Hvs Hlen. eapply call_ok; [exact Hft| |].
+  - intros E. rewrite <- Hfs. exact (Hfast E).
+  - apply args_ok_typed.
+    + rewrite Hlen, <- Hari. exact Har.
+    + exact Hlast.
+    + eapply vals_rel_ext; [|exact Hvs]. exact Hpt.
+Qed.
+
+Lemma sound_function a name args fast : Forall sound_at args -> sound_at (EFunction a name args fast).
+Proof.
+  intros HF cols t e' H Hs ctx Hc s. rewrite visit_function in H. rewrite scope_function in Hs.
+  destruct fast; [discriminate|]. cbn [negb andb orb] in *.
+  destruct (lookup_name c name) as [tg|] eqn:Hl; [|discriminate].
+  destruct (tg_ty tg) as [| | | | | | | | |ins v outs| |] eqn:Hty; try discriminate.
+  destruct outs as [|o [|o2 outs]]; try discriminate.
+  apply andb_prop in Hs. destruct Hs as [Hs Hsa]. apply andb_prop in Hs. destruct Hs as [Ha Hsig]. apply negb_true_iff in Ha.
+  unfold function_callee in H. rewrite Hl, Hty in H. cbn [is_func_type under dereference] in H.
+  destruct (check_func (vargs c cols) (TFunc ins v [o]) (tg_method tg) (aloc a) args None) as [[t' args'] st1] eqn:Ecf.
+  inversion H; subst. destruct (check_func_inv _ _ _ _ _ _ _ _ _ _ Ecf) as (Har & -> & R).
+  destruct (env_callee name tg ins v o Hl Hty Ha Hsig) as (id & Ef & Hft).
+  cbn [settle set_ann]. rewrite sv_function.
+  assert (G : forall l0 fl, (fl = true -> fast_sig (TFunc ins v [o]) (tg_method tg) = true) ->
+          res_ok o (ev_list fe cfg env ctx args' s (fun vs s1 => do_call fe l0 fl id env vs s1))).
+  { intros l0 fl Hfl. eapply finish_call; eauto. }
+  specialize (G (aloc a) (fast_sig (TFunc ins v [o]) (tg_method tg)) (fun E => E)).
+  rewrite Ef. exact G.
+Qed.
+
+Lemma sound_method a x name args ns : sound_at x -> Forall sound_at args -> sound_at (EMethod a x name args ns).
+Proof.
+  intros IHx HF cols t e' H Hs ctx Hc s. rewrite visit_method in H. rewrite scope_method in Hs.
+  destruct (visit c cols x None) as [[tx x'] st1] eqn:Ex.
+  unfold tyof in Hs. rewrite Ex in Hs. cbn [fst] in Hs. apply andb_prop in Hs. destruct Hs as [Hsx Hs].
+  destruct tx as [| | | | | | |sn'| | | |]; try discriminate.
+  destruct (method_by_name te (TStruct sn') name) as [mt|] eqn:Hm; [|discriminate].
+  destruct mt as [| | | | | | | | |ins v outs| |]; try discriminate.
+  destruct outs as [|o [|o2 outs]]; try discriminate.
+  apply andb_prop in Hs. destruct Hs as [Hsig Hsa].
+  assert (method_callee c (TStruct sn') name = Some (TFunc ins v [o], true)) as Emc.
+  { unfold method_callee, Checker.te, cfuel, Checker.te, fuel0. cbn [method_type]. rewrite Hm. reflexivity. }
+  rewrite Emc in H.
+  destruct (check_func (vargs c cols) (TFunc ins v [o]) true (aloc a) args st1) as [[t' args'] st2] eqn:Ecf.
+  inversion H; subst. pose proof (check_func_none _ _ _ _ _ _ _ _ _ Ecf). subst st1.
+  destruct (check_func_inv _ _ _ _ _ _ _ _ _ _ Ecf) as (Har & -> & R).
+  cbn [settle set_ann]. rewrite sv_method. eapply res_bind; [exact (IHx _ _ _ Ex Hsx ctx Hc s)|]. intros vx s1 Hvx.
+  destruct (inv_struct _ _ _ _ Hvx) as [fields ->].
+  destruct (fo_meth _ _ _ Hfe sn' false name _ Hm) as (id & Hfm & Hft).
+  destruct (sig_norm _ _ _ Hsig) as (_ & _ & _ & _ & Hst). rewrite (Hst eq_refl) in Hft.
+  assert (Ef : Prim.fetch_fn fe (VStruct sn' false fields) name = Ok id).
+  { unfold Prim.fetch_fn. cbn [type_name_of]. rewrite Hfm. reflexivity. }
+  assert (G : res_ok o (ev_list fe cfg env ctx args' s1
+                (fun vs s2 => do_call fe (aloc a) false id (VStruct sn' false fields) vs s2))).
+  { eapply finish_call; eauto. discriminate. }
+  destruct ns; rewrite Ef; exact G.
 Qed.
